@@ -132,16 +132,17 @@ def find_nearest_index_satisfying_monotonic_condition(arr: List[TrajectoryData],
     pos = bisect.bisect_left(BisectWrapper(arr, value_getter), target_value)
 
     # Compare neighbors to find the nearest index
+    if len(arr) == 0:
+        return -1
     if pos == 0:
         return 0
-    if pos == len(arr):
-        return len(arr) - 1
     before = pos - 1
     after = pos
-    if abs(value_getter(arr[before]) - target_value) <= abs(
+    if pos == len(arr) or abs(value_getter(arr[before]) - target_value) <= abs(
         value_getter(arr[after]) - target_value
     ):
-        return before
+        # smaller index among rows sharing the nearest value
+        return bisect.bisect_left(BisectWrapper(arr, value_getter), value_getter(arr[before]))
     return after
 
 
@@ -186,7 +187,7 @@ def find_index_for_time_point(
         index = find_nearest_index_satisfying_monotonic_condition(
             shot.trajectory, time, lambda e: e.time
         )
-        if abs(shot.trajectory[index].time - time) <= max_time_deviation_in_seconds:
+        if index >= 0 and abs(shot.trajectory[index].time - time) <= max_time_deviation_in_seconds:
             return index
         return -1
     # This is original sequential code for search of index for time point
